@@ -27,8 +27,8 @@ def search(ctx, res, problems):
 
 
 PROP = {
-    "streams": streams, "search": search,
+    "streams": streams, "search": search, "translators": nc.translators_ntt,
     "rule": "poly<T,n,m>: a,b -> ntt_pow_phi, pointwise * (mulmod) and shoup(a*b, compute_shoup(b)), invntt_pow_invphi; one line per modulus slice; operands: unit-vector pairs X^i·X^j (all pairs for n ≤ 8), 1·a, all-(p-1)², boundary mixes, sparse, random; every power-of-two degree the backend accepts (quick: ≤ 2048 and 32768; thorough: all up to 32768), limbs 16/32/64, 1–3 moduli, serial+SSE+AVX2; transform tables of core::initialize dumped and compared; spec oracle = schoolbook negacyclic product (n ≤ 1024), model equality above; distinct = distinct op lines",
-    "trusted_base": props.COMMON_TB + ["for n > 1024 the oracle on the implementation's answer is the Lean model (which the theorem equates with the schoolbook product)"],
+    "trusted_base": props.COMMON_TB + [nc.NTT_AST_TB, "for n > 1024 the oracle on the implementation's answer is the Lean model (which the theorem equates with the schoolbook product)"],
     "assumptions": ["operands canonical (residues in [0,p))", "degree a power of two ≤ kMaxPolyDegree of the limb"],
 }
